@@ -11,6 +11,7 @@ import (
 	"verifharness/execfam"
 	"verifharness/fpfam"
 	"verifharness/loadfam"
+	"verifharness/outfam"
 	"verifharness/rep"
 )
 
@@ -27,6 +28,12 @@ func main() {
 		os.Exit(execfam.ReplayExec(os.Args[3]))
 	}
 	switch os.Args[1] {
+	case "C17":
+		tier := "quick"
+		if len(os.Args) > 2 {
+			tier = os.Args[2]
+		}
+		os.Exit(outfam.Check(tier))
 	case "C19":
 		tier := "quick"
 		if len(os.Args) > 2 {
